@@ -4,7 +4,7 @@
 from collections import defaultdict
 
 from jaqalpaq.core.algorithm.visitor import Visitor
-from jaqalpaq.core import Macro
+from jaqalpaq.core import Macro, NamedQubit, Parameter
 from jaqalpaq.error import JaqalError
 
 
@@ -65,7 +65,13 @@ class UsedQubitIndicesVisitor(Visitor):
         # Note: This could be more elegant with a is_macro method on gates
         if isinstance(obj.gate_def, Macro):
             context = context or {}
-            macro_context = {**context, **obj.parameters}
+            # Arguments are evaluated in the caller's scope; the callee's
+            # parameter names may coincide with names bound there.
+            arguments = {
+                name: self.bind_argument(arg, context)
+                for name, arg in obj.parameters.items()
+            }
+            macro_context = {**context, **arguments}
             macro_body = obj.gate_def.body
             return self.visit(macro_body, macro_context)
         else:
@@ -75,6 +81,18 @@ class UsedQubitIndicesVisitor(Visitor):
                 else:
                     self.merge_into(indices, self.visit(param, context=context))
             return indices
+
+    def bind_argument(self, arg, context):
+        """Evaluate a macro call's argument in the caller's context."""
+        if isinstance(arg, Parameter):
+            return arg.resolve_value(context)
+        if isinstance(arg, NamedQubit) and (
+            isinstance(arg.alias_index, Parameter)
+            or isinstance(arg.alias_from, Parameter)
+        ):
+            reg, idx = arg.resolve_qubit(context)
+            return reg[idx]
+        return arg
 
     def visit_Parameter(self, obj, context=None):
         return self.visit(obj.resolve_value(context=context), context=context)
